@@ -65,6 +65,10 @@ class Check:
 
     # -- bookkeeping ---------------------------------------------------
     def rule(self, rid: str, text: str, floor: int = 0) -> None:
+        if rid in self.rules and self.rules[rid]["text"] != text:
+            raise AnalysisError("rule id {} registered twice".format(rid))
+        if rid in self.rules:
+            return
         self.rules[rid] = {"text": text, "instances": 0, "violations": 0,
                            "floor": floor}
 
